@@ -135,9 +135,12 @@ func (x *Exec) enterBlock(st *State, fr *Frame, b *ssa.BasicBlock) bool {
 		x.paths++
 		if spec != nil {
 			ctx := x.invCtx(st, fr, c)
+			ctx.entry = st.loopEntry[b]
+			var prev []T
 			for j, inv := range spec.Invariants {
 				g := x.evalClause(ctx, inv, c)
-				x.addCheck(st, fr, fmt.Sprintf("loop#%d/inv#%d/preserve", ord, j+1), g, b.Instrs[0].Pos(), inv.Text)
+				x.addCheck(st, fr, fmt.Sprintf("loop#%d/inv#%d/preserve", ord, j+1), implies(and(prev...), g), b.Instrs[0].Pos(), inv.Text)
+				prev = append(prev, g)
 			}
 		}
 		if hs := x.loopFrameHeaps[b]; len(hs) > 0 && fr.parent == nil {
@@ -148,15 +151,27 @@ func (x *Exec) enterBlock(st *State, fr *Frame, b *ssa.BasicBlock) bool {
 	}
 	if spec != nil && x.dry == 0 {
 		ctx := x.invCtx(st, fr, c)
+		var prev []T
 		for j, inv := range spec.Invariants {
 			g := x.evalClause(ctx, inv, c)
-			x.addCheck(st, fr, fmt.Sprintf("loop#%d/inv#%d/init", ord, j+1), g, b.Instrs[0].Pos(), inv.Text)
+			x.addCheck(st, fr, fmt.Sprintf("loop#%d/inv#%d/init", ord, j+1), implies(and(prev...), g), b.Instrs[0].Pos(), inv.Text)
+			prev = append(prev, g)
 		}
 	}
 	// discover what the loop modifies (two dry runs)
 	st.cut[b] = true
 	rec := x.dryRun(st, fr, b, nil)
 	entry := st.snapshot()
+	if st.loopEntry == nil {
+		st.loopEntry = map[*ssa.BasicBlock]*State{}
+	} else {
+		m := make(map[*ssa.BasicBlock]*State, len(st.loopEntry)+1)
+		for k2, v2 := range st.loopEntry {
+			m[k2] = v2
+		}
+		st.loopEntry = m
+	}
+	st.loopEntry[b] = entry
 	entryCells := map[*ssa.Alloc]T{}
 	for a, v := range st.cells {
 		entryCells[a] = v
@@ -233,6 +248,14 @@ func (x *Exec) enterBlock(st *State, fr *Frame, b *ssa.BasicBlock) bool {
 			x.addCheck(st, fr, fmt.Sprintf("loop#%d/frame/init", ord), g, b.Instrs[0].Pos(), "the function's frame holds at loop entry")
 		}
 	}
+	if spec != nil && !spec.Flags["keepquant"] {
+		// full cut for quantified facts: what is needed later must be in the invariant
+		n := 1
+		if st.ev != nil {
+			n = st.ev.n + 1
+		}
+		st.ev = &Event{Kind: EvAssume, Text: "true", Cut: true, prev: st.ev, n: n}
+	}
 	x.havocRec(st, rec, stable)
 	if fr.parent == nil && fr.contract != nil && !fr.contract.ModAll && len(wholeHeaps) > 0 {
 		q := T{quoteSym("q frame r"), SInt}
@@ -245,7 +268,7 @@ func (x *Exec) enterBlock(st *State, fr *Frame, b *ssa.BasicBlock) bool {
 	x.rangeIndexFacts(st, fr, b)
 	if spec != nil {
 		ctx := x.invCtx(st, fr, c)
-		ctx.old = entry
+		ctx.entry = entry
 		for _, inv := range spec.Invariants {
 			st.assume(x.evalClause(ctx, inv, c))
 		}
